@@ -70,7 +70,7 @@ PROPS["C08"] = {
 PROPS["C15"] = {
     "S": [{"name": "c15", "src": "c15.cpp", "shards": 16, "no_validate": True}],   # exact-rational concrete runs of whole solves exhaust the 6 GB budget (rational growth); the obligations here are raw-log identities, validated in C01/C05
     "explanation": "For each of the 9 solver classes coupled to real preconditioners (two AMG hierarchies, ILU(0), identity) on concrete SPD matrices with SYMBOLIC vectors, a call on a used object is compared with the same call on a freshly constructed object: the raw operation logs must be identical (hence bitwise-equal results) and the result may not mention any variable of earlier calls, also after a call with junk (NaN-like) inputs; exits of the iteration are solver-decided forks. Zero right-hand side => zero vector in zero iterations; a guess that solves the system => zero iterations and x unchanged (z3); right-hand side and matrix arrays unmodified. LGMRES without always_reset is the documented exception and is only observed. skyline_lu: second solve on a used object equals a fresh solve with the matrix fully symbolic.",
-    "bounds": {"quick": "matrices 3x2 grid and tridiagonal 6; maxiter k=1 for all solvers, k=2 for cg/bicgstab/richardson; tol=1e-8; restart 1-2, L in {1,2}, s in {1,2}; <=24 paths and 40 s per case; call scripts: solve, solve | solve, junk solve, solve | zero rhs | converged guess",
+    "bounds": {"quick": "matrices 3x2 grid (all solvers, k=1) and tridiagonal 6 (cg/bicgstab/richardson), k=2 for cg/bicgstab/richardson; tol=1e-8; restart 1-2, L in {1,2}, s in {1,2}; <=24 paths and 40 s per case; call scripts: solve, solve | solve, junk solve, solve | zero rhs | converged guess",
                "thorough": "adds 3x3 grid, random n=7, k<=3 for every solver"},
     "out": "rounding; deflated_solver and rebuild in the call script (rebuild is decided in C03); alternative system matrices passed to the solver; longer call sequences",
 }
@@ -113,4 +113,12 @@ PROPS["C13"] = {
     "bounds": {"quick": "block sizes 2 and 3; block patterns 1x1, dense 2x2, tridiagonal 3, two non-symmetric patterns; formulations on tridiagonal-3 and 2x2-grid block patterns (block size 2) and a 2-block system with block size 3, one solver iteration; complex adapter on 5 patterns n<=3",
                "thorough": "block size 4, formulations with 2 iterations and block size 3"},
     "out": "a single-precision preconditioner under a double-precision solver reaching 1e-8 on model problems (a rounding statement: not decidable by this technique); Eigen block types; solves with more than one or two iterations",
+}
+
+PROPS["C18"] = {
+    "S": [{"name": "c18", "src": "c18.cpp", "shards": 16, "flags": ["-fno-access-control"]}],
+    "explanation": "schur_pressure_correction with exact inner solvers (skyline LU for the flow block; an exact dense solve of the very operator the preconditioner exposes as its Schur complement for the pressure block) on concrete non-symmetric matrices and SYMBOLIC right-hand sides: for every pressure mask, adjust_p in {0,1,2} and both diagonal approximations z3 proves type 1 is the exact inverse (K*apply(f) = f), type 2 solves the block upper-triangular system, the extracted Kuu/Kup/Kpu/Kpp reassemble to K, and apply() ignores the old output. CPR: weighting row times diagonal block = e_1^T, the pressure matrix equals the weighted first-unknown columns of A, x = S f + Scatter P(Fpp(f - A S f)) with the real sub-preconditioners, Scatter/Fpp structure, and partial_update with an unchanged matrix leaves the action unchanged (transfer operators updated or kept). deflated_solver: after projection Z^T(f - A x) = 0 and the solve is truthful for the original system.",
+    "bounds": {"quick": "Schur: dense 3x3 and tridiagonal 4 with all 2^n-2 masks, dense 4x4 with a third of the masks, types 1/2, adjust_p 0/1/2; CPR: block sizes 2,3 on 2- and 3-block systems, active_rows full and partial; deflation: 3x2 grid and tridiagonal 7 with 1-2 deflation vectors, one CG iteration",
+               "thorough": "5x5 Schur with all masks, CPR block size 4, 3 deflation vectors"},
+    "out": "cpr_drs; CPR with block-valued input versus scalar input with block_size (separate code path); pmask pattern strings; inexact inner solves; rounding",
 }
